@@ -108,7 +108,7 @@ def steps(cls, x, method='forward', n=1, order=2, **opts):
         num = 2 * int(np.round(16.0 / np.log(np.abs(ratio)))) + 1
     else:
         num = mns + int(o['num_extrap'])
-    b = np.asarray(base, dtype=float) * nom
+    b = (np.asarray(base) if np.iscomplexobj(base) else np.asarray(base, dtype=float)) * nom
     if o['use_exact_steps']:
         b = make_exact(b)
         ratio = make_exact(ratio)
